@@ -263,6 +263,27 @@ def run_cmd(cmd, timeout=1500, input_bytes=None):
     return so
 
 
+def broken_theorems(log):
+    """map `error: BMV/Props/C11.lean:<line>` of a failed build to the names of the theorems"""
+    src = os.path.join(vlib.LEAN, "BMV", "Props", "C11.lean")
+    try:
+        lines = open(src, encoding="utf-8").read().splitlines()
+    except OSError:
+        return []
+    names = []
+    for m in re.finditer(r"BMV/Props/C11\.lean:(\d+):\d+", log):
+        k = min(int(m.group(1)), len(lines)) - 1
+        while k >= 0:
+            t = re.match(r"\s*(?:theorem|example)\s*(\S*)", lines[k])
+            if t:
+                nm = t.group(1) or "example@%d" % (k + 1)
+                if nm not in names:
+                    names.append(nm)
+                break
+            k -= 1
+    return names
+
+
 def regenerate(hbin):
     """rewrite lean/BMV/Gen/Fields.lean from the source of vlib.REPO"""
     tmp = GEN + ".tmp"
@@ -347,6 +368,9 @@ def run(rep):
     hbin = vlib.go_build("c11")
     ok_gen, gen_err = regenerate(hbin)
     pr = vlib.prove(PROP, MODULES, exes=[EXE], leanchecker=thorough)
+    named = broken_theorems(pr.get("log", ""))
+    if named:
+        pr["broken"].append("obligations that no longer check: " + ", ".join(named))
     if not ok_gen:
         pr["ok"] = False
         pr["broken"].append("regeneration of BMV/Gen/Fields.lean: " + gen_err)
